@@ -77,17 +77,7 @@ func c14(c *Ctx) {
 			"text is written at an address that is neither the guard's origin, the validated trampoline nor an acquired stub region ("+atomsString(s.Addr)+")")
 		if s.Kind != "other" {
 			// same receiver for address and data
-			var ab, db ssa.Value
-			for _, a := range s.Addr {
-				if b, _, ok := fieldRef(a.V); ok {
-					ab = b
-				}
-			}
-			for _, a := range s.Data {
-				if b, _, ok := fieldRef(a.V); ok {
-					db = b
-				}
-			}
+			ab, db := s.AddrBase, s.DataBase
 			r.Check(ab != nil && ab == db, "C14.W1", cons+" pairs origin with its own bytes", p.Pos(posOf(s.Call)), "address and bytes belong to the same guard", "the bytes written and the address come from different guards")
 		}
 	}
@@ -149,7 +139,7 @@ func c14(c *Ctx) {
 		k := NewKeyer(s.Fn)
 		m := NewDBM()
 		guardsToDBM(m, k, s.Call.Block())
-		data := s.Call.Common().Args[1]
+		data := s.DataV
 		lenT := Term{"len(" + k.Key(data) + ")", 0}
 		okB := false
 		for _, g := range guardsAt(s.Call.Block()) {
@@ -162,7 +152,7 @@ func c14(c *Ctx) {
 					if a.Kind == "call" && strings.Contains(a.Name, "GetFuncSize") {
 						// scan must be of the same address that is written
 						if cl, ok := a.V.(*ssa.Extract); ok {
-							if cc, ok := cl.Tuple.(*ssa.Call); ok && cc.Call.Args[1] == s.Call.Common().Args[0] {
+							if cc, ok := cl.Tuple.(*ssa.Call); ok && cc.Call.Args[1] == s.AddrV {
 								if m.EntailsLE(lenT, k.TermOf(side)) {
 									okB = true
 								}
